@@ -55,6 +55,7 @@ class Roles:
         self.seq_elem = {}
         self.index_vars = {}
         self.opaque_index = set()       # index variables that are dual by name only (S[first_idx] <-> S[last_idx])
+        self.singleton_seq = set()      # names of sequences known to hold exactly one element here: S[0] and S[-1] are the same element
         self.singleton_index = set()    # source texts X of index pairs with X[0] == X[1] in the compared code: S[X[c]] is one opaque position
         self.coord_funcs = set()        # callees returning a coordinate
         self.coord_iterables = set()    # dicts / collections whose keys are coordinates
@@ -74,6 +75,16 @@ class Roles:
         self.coord_re = re.compile(coord_re or r"(^|_)(pos|position|site)($|_)|_(start|end)$|^(start|end)$")
         self.interval_re = re.compile(interval_re or r"^(exon|intron|region|e|inc|out)$|_(exon|intron|region)$")
         self.seq_re = re.compile(seq_re or r"(exons|introns|blocks)$")
+
+    def explicit_names(self):
+        return self.other | self.length | self.coord | self.interval | self.seq | self.tagged | set(self.index_vars) | self.opaque_index
+
+    def explicit(self, name):
+        """Role given explicitly in the pair table (None if the name is not listed)."""
+        for t, names in (("O", self.other), ("L", self.length), ("C", self.coord), ("I", self.interval), ("S", self.seq), ("T", self.tagged)):
+            if name in names:
+                return t
+        return None
 
     def of_name(self, name):
         if name in self.other:
@@ -104,29 +115,158 @@ def polarity_free(name):
 
 
 class Reflector:
-    def __init__(self, roles, mirror, func=None):
+    def __init__(self, roles, mirror, func=None, scope=None):
         self.r = roles
         self.mirror = mirror     # True: apply rho; False: canonicalise only
         self.params = {}
         self.locals = set()
+        self.local_token = {}    # local name -> positional token (order of first store): local names carry no meaning
+        self.local_defs = {}     # local name -> [("assign", expr) | ("elem", iterable expr)]
+        self._ty_busy = set()
+        self.auto_inl = {}
+        self.value_defs = {}     # local name -> [(kind, expr)]: every way the local gets a value
+        self._tok_busy = set()
+        self._tok_cache = {}
         if func is not None:
             for i, a in enumerate(func.args.args):
                 self.params[a.arg] = "self" if a.arg in ("self", "cls") else "$%d" % i
+            order = []
             for n in ast.walk(func):
                 if isinstance(n, ast.Name) and isinstance(n.ctx, ast.Store):
                     self.locals.add(n.id)
+                    order.append((n.lineno, n.col_offset, n.id))
                 elif isinstance(n, ast.comprehension):
                     for x in ast.walk(n.target):
                         if isinstance(x, ast.Name):
                             self.locals.add(x.id)
+                if isinstance(n, ast.Assign) and len(n.targets) == 1 and isinstance(n.targets[0], ast.Name):
+                    self.local_defs.setdefault(n.targets[0].id, []).append(("assign", n.value))
+                elif isinstance(n, (ast.For, ast.comprehension)) and isinstance(n.target, ast.Name):
+                    self.local_defs.setdefault(n.target.id, []).append(("elem", n.iter))
+                if isinstance(n, ast.Assign):
+                    for t in n.targets:
+                        if isinstance(t, ast.Name):
+                            self.value_defs.setdefault(t.id, []).append(("assign", n.value))
+                        elif isinstance(t, (ast.Tuple, ast.List)):
+                            for i, x in enumerate(t.elts):
+                                if isinstance(x, ast.Name):
+                                    self.value_defs.setdefault(x.id, []).append(("unpack%d" % i, n.value))
+                elif isinstance(n, ast.AugAssign) and isinstance(n.target, ast.Name):
+                    self.value_defs.setdefault(n.target.id, []).append(("aug" + type(n.op).__name__, n.value))
+                elif isinstance(n, (ast.For, ast.comprehension)):
+                    if isinstance(n.target, ast.Name):
+                        self.value_defs.setdefault(n.target.id, []).append(("elem", n.iter))
+                    else:
+                        for i, x in enumerate(getattr(n.target, "elts", [])):
+                            if isinstance(x, ast.Name):
+                                self.value_defs.setdefault(x.id, []).append(("elem%d" % i, n.iter))
+            self.func = func
+            self.frame_free = set()
+            if scope is not None:
+                inside_ids = {id(n) for st in scope for n in ast.walk(st)}
+                stored_in = {n.id for st in scope for n in ast.walk(st) if isinstance(n, ast.Name) and isinstance(n.ctx, ast.Store)}
+                stored_out = {n.id for n in ast.walk(func) if isinstance(n, ast.Name) and isinstance(n.ctx, ast.Store) and id(n) not in inside_ids}
+                # locals that get (all) their values outside the compared statements are the same object on both sides
+                self.frame_free = {nm for nm in self.locals if nm not in stored_in or nm in stored_out}
+                vd = {}
+                for st in scope:
+                    for n in ast.walk(st):
+                        if isinstance(n, ast.Assign):
+                            for t in n.targets:
+                                if isinstance(t, ast.Name):
+                                    vd.setdefault(t.id, []).append(("assign", n.value))
+                                elif isinstance(t, (ast.Tuple, ast.List)):
+                                    for i, x in enumerate(t.elts):
+                                        if isinstance(x, ast.Name):
+                                            vd.setdefault(x.id, []).append(("unpack%d" % i, n.value))
+                        elif isinstance(n, ast.AugAssign) and isinstance(n.target, ast.Name):
+                            vd.setdefault(n.target.id, []).append(("aug" + type(n.op).__name__, n.value))
+                        elif isinstance(n, (ast.For, ast.comprehension)):
+                            if isinstance(n.target, ast.Name):
+                                vd.setdefault(n.target.id, []).append(("elem", n.iter))
+                            else:
+                                for i, x in enumerate(getattr(n.target, "elts", [])):
+                                    if isinstance(x, ast.Name):
+                                        vd.setdefault(x.id, []).append(("elem%d" % i, n.iter))
+                for nm in stored_in:
+                    if nm in stored_out:
+                        vd.setdefault(nm, []).append(("outer", ast.Constant(value="<value on entry>")))
+                self.scope_defs = vd
+            else:
+                self.scope_defs = None
+            scoped = []
+            if scope:
+                for st in scope:
+                    for n in ast.walk(st):
+                        if isinstance(n, ast.Name) and isinstance(n.ctx, ast.Store):
+                            scoped.append((n.lineno, n.col_offset, n.id))
+            first_in_scope = {}
+            for ln, co, nm in sorted(scoped):
+                first_in_scope.setdefault(nm, len(first_in_scope))
+            stored_outside = set()
+            if scope:
+                inside = {id(n) for st in scope for n in ast.walk(st)}
+                for n in ast.walk(func):
+                    if isinstance(n, ast.Name) and isinstance(n.ctx, ast.Store) and id(n) not in inside:
+                        stored_outside.add(n.id)
+            self.auto_inl = self._single_use_locals(func)
+            k = 0
+            for ln, co, nm in sorted(order):
+                if nm in self.local_token or nm in self.params or nm in self.r.inline or nm in self.auto_inl:
+                    continue
+                if dual_ident(nm, self.r.extra_dual) != nm or nm in self.r.index_vars or nm in self.r.opaque_index:
+                    continue          # the name carries a side (left/right, polya/polyt ...): canonicalised through its dual
+                if nm in first_in_scope and nm not in stored_outside:
+                    self.local_token[nm] = "%%b%d" % first_in_scope[nm]
+                else:
+                    self.local_token[nm] = "%%f%d" % k
+                    k += 1
 
     def name(self, ident):
         """Canonical token for a plain Name: positional for parameters, polarity-free for locals, dual for globals."""
         if ident in self.params:
             return self.params[ident]
+        if ident in self.local_token:
+            return self._value_token(ident)
         if ident in self.locals:
             return min(ident, dual_ident(ident, self.r.extra_dual))
         return self.dn(ident)
+
+    def _value_token(self, ident):
+        """Name-free token of a side-neutral local: a digest of the canonical forms of everything assigned to it
+        (in the current frame, so a mirrored definition yields the mirrored token)."""
+        if ident in self._tok_cache:
+            return self._tok_cache[ident]
+        if ident in getattr(self, "frame_free", ()) and (self.mirror or self.scope_defs is not None):
+            if getattr(self, "_plain_r", None) is None:
+                self._plain_r = Reflector(self.r, False, self.func)
+            tok = self._plain_r._value_token(ident) if ident in self._plain_r.local_token else self._plain_r.name(ident)
+            self._tok_cache[ident] = tok
+            return tok
+        defs = self.scope_defs if self.scope_defs is not None else self.value_defs
+        if ident in self._tok_busy or ident not in defs:
+            return "%rec" if ident in self._tok_busy else self.local_token[ident]
+        self._tok_busy.add(ident)
+        try:
+            texts = []
+            tgt = ast.Name(id=ident, ctx=ast.Store())
+            for kind, v in defs[ident]:
+                try:
+                    if kind == "assign":
+                        t = self._assign(tgt, self._subst_inline(v))      # same canonical form as the fact (the target renders as %rec)
+                    elif kind.startswith("aug"):
+                        t = self.pos_coord(v) if self.ty(tgt) == "C" else self.expr(v)
+                    else:
+                        t = self.expr(v)
+                except Unsupported:
+                    t = "?" + type(v).__name__
+                texts.append("%s:%s" % (kind, t))
+        finally:
+            self._tok_busy.discard(ident)
+        import hashlib
+        tok = "%" + hashlib.md5("|".join(sorted(set(texts))).encode()).hexdigest()[:8]
+        self._tok_cache[ident] = tok
+        return tok
 
     # ---------------- typing
     def ty(self, e):
@@ -135,6 +275,24 @@ class Reflector:
         if isinstance(e, ast.Constant):
             return "L" if isinstance(e.value, (int, float)) and not isinstance(e.value, bool) else "O"
         if isinstance(e, ast.Name):
+            t = self.r.explicit(e.id)
+            if t is not None:
+                return t
+            if e.id in self.local_defs and e.id not in self.params and e.id not in self._ty_busy \
+                    and e.id not in self.r.opaque_index and e.id not in self.r.index_vars:
+                self._ty_busy.add(e.id)
+                try:
+                    ts = set()
+                    for kind, v in self.local_defs[e.id]:
+                        tv = self.ty(v)
+                        if kind == "elem":
+                            tv = self._elem_ty(v, tv)
+                        ts.add(tv)
+                finally:
+                    self._ty_busy.discard(e.id)
+                ts.discard("O")
+                if len(ts) == 1:
+                    return ts.pop()
             return self.r.of_name(e.id)
         if isinstance(e, ast.Attribute):
             d = dotted(e) or ""
@@ -193,6 +351,17 @@ class Reflector:
             return self.ty(e.body)
         if isinstance(e, ast.Tuple):
             return "O"
+        return "O"
+
+    def _elem_ty(self, iterable, t_iter):
+        """Type of an element of `iterable` (already typed t_iter)."""
+        if t_iter == "S":
+            bn = iterable.id if isinstance(iterable, ast.Name) else (iterable.attr if isinstance(iterable, ast.Attribute) else None)
+            if bn in self.r.seq_elem:
+                return self.r.seq_elem[bn]
+            return "T" if bn and "path" in bn else "I"
+        if isinstance(iterable, ast.Call) and (dotted(iterable.func) or "") in ("range", "enumerate"):
+            return "L" if dotted(iterable.func) == "range" else "O"
         return "O"
 
     def dn(self, name):
@@ -280,6 +449,10 @@ class Reflector:
                     lo, hi = nlo, nhi
                 return "%s[%s:%s]" % (base, "" if lo is None else self.fmt(self.lin(lo)), "" if hi is None else self.fmt(self.lin(hi)))
             idx = e.slice
+            if bt == "S" and src(idx) in ("0", "-1"):
+                bn = e.value.id if isinstance(e.value, ast.Name) else (e.value.attr if isinstance(e.value, ast.Attribute) else None)
+                if bn in self.r.singleton_seq:
+                    return "%s[only]" % base
             if bt == "I" and self.mirror and isinstance(idx, ast.Constant) and idx.value in (0, 1):
                 return "%s[%s]" % (base, self.fmt({"1": 1 - idx.value} if 1 - idx.value else {}))
             if bt == "S" and isinstance(idx, ast.Name) and (idx.id in self.r.opaque_index or idx.id in self.r.index_vars):
@@ -460,7 +633,41 @@ class Reflector:
                 if isinstance(n, ast.Assign) and len(n.targets) == 1 and isinstance(n.targets[0], ast.Name) \
                         and n.targets[0].id in self.r.inline:
                     self.inl[n.targets[0].id] = n.value
+        self.inl.update(getattr(self, "auto_inl", {}))
         self._block(func.body, (), out)
+        return out
+
+    def _single_use_locals(self, func):
+        """Locals stored once (plain `name = expr`) and loaded once, in the same statement list right after: temporaries.
+        Substituting them makes the facts independent of whether a sub-expression was given a name."""
+        stores, loads = {}, {}
+        for n in ast.walk(func):
+            if isinstance(n, ast.Name):
+                (stores if isinstance(n.ctx, ast.Store) else loads).setdefault(n.id, []).append(n)
+        out = {}
+        for name, st in stores.items():
+            if len(st) != 1 or len(loads.get(name, [])) != 1 or name in self.params or name in self.r.index_vars:
+                continue
+            a = st[0]._parent if hasattr(st[0], "_parent") else None
+            if not (isinstance(a, ast.Assign) and len(a.targets) == 1 and a.targets[0] is st[0]):
+                continue
+            if isinstance(a.value, (ast.Tuple, ast.List)) or any(isinstance(x, (ast.Call,)) and not isinstance(a.value, ast.Tuple) for x in [a.value]):
+                pass
+            # the single load must follow in the same block (no loop boundary between definition and use)
+            blk = getattr(a._parent, "body", None) if hasattr(a, "_parent") else None
+            if not isinstance(blk, list) or a not in blk:
+                continue
+            i = blk.index(a)
+            use = loads[name][0]
+            owner = use
+            while owner is not None and owner not in blk:
+                owner = getattr(owner, "_parent", None)
+            if owner is None or blk.index(owner) <= i or isinstance(owner, (ast.For, ast.While)) and any(use is x for x in ast.walk(owner)) and \
+                    not any(use is x for x in ast.walk(owner.iter if isinstance(owner, ast.For) else owner.test)):
+                continue
+            if name in self.r.explicit_names():
+                continue
+            out[name] = a.value
         return out
 
     def _subst_inline(self, e):
@@ -582,8 +789,8 @@ def compare(func_l, func_r, roles_l, roles_r=None):
 
 
 def block_facts(stmts, func, roles, mirror):
-    r = Reflector(roles, mirror, func)
-    r.inl = {}
+    r = Reflector(roles, mirror, func, scope=stmts)
+    r.inl = dict(getattr(r, "auto_inl", {}))
     out = []
     r._block(stmts, (), out)
     return out
